@@ -309,7 +309,8 @@ class Gen:
     descriptions, commands with fixed output, undefined nonterminals."""
 
     def __init__(self, seed, vocab=None, allow_cmd=True, allow_ref=True, allow_descr=True,
-                 allow_fb=True, allow_sub=True, cmd_pool=None, max_depth=4):
+                 allow_fb=True, allow_sub=True, cmd_pool=None, max_depth=4, allow_builtin=True,
+                 def_cmd=None):
         self.r = random.Random(seed)
         self.vocab = vocab or ['a', 'b', 'ab', 'abc', 'c', '--x', '--y=', 'k=', 'foo', 'fo']
         self.allow_cmd = allow_cmd
@@ -319,6 +320,8 @@ class Gen:
         self.allow_sub = allow_sub
         self.cmd_pool = cmd_pool or ['echo x1', 'echo y1; echo y2', "printf 'p1\\np2\\n'", 'echo zz']
         self.max_depth = max_depth
+        self.allow_builtin = allow_builtin
+        self.def_cmd = def_cmd or (lambda shell, n: 'echo %s%d' % ((shell or 'g')[0], n))
         self.defs = []
         self.nd = 0
         self.wordsafe = {}
@@ -341,7 +344,7 @@ class Gen:
         x = self.r.random()
         if x < 0.25 and allow_any:
             return Ref(self.r.choice(['_', 'UNDEF', 'FILE']))
-        if x < 0.35 and allow_any and not in_word:
+        if x < 0.35 and allow_any and not in_word and self.allow_builtin:
             return Ref(self.r.choice(['PATH', 'DIRECTORY']))
         # defined nonterminal: reuse or create
         if self.defs and self.r.random() < 0.4:
@@ -358,10 +361,10 @@ class Gen:
         if kind < 0.2 and self.allow_cmd:
             # external command with optional shell-specific variants
             self.wordsafe[name] = True
-            self.defs.append((name, None, Cmd('echo g%d' % self.nd)))
+            self.defs.append((name, None, Cmd(self.def_cmd(None, self.nd))))
             for sh in ('bash', 'fish', 'zsh', 'pwsh'):
                 if self.r.random() < 0.4:
-                    self.defs.append((name, sh, Cmd('echo %s%d' % (sh[0], self.nd))))
+                    self.defs.append((name, sh, Cmd(self.def_cmd(sh, self.nd))))
         else:
             body = self.expr(self.max_depth - 2, in_word=in_word, allow_any=allow_any, top=False)
             self.defs.append((name, None, body))
